@@ -1,23 +1,15 @@
-"""Per-property configuration of the driver (check.py)."""
+"""Per-property configuration of the driver: one harness/<pkg>/prop.json per property.
 
-PROPS = {
-    "C16": dict(
-        pkg="c16",
-        level="exploration",
-        shards=8,
-        fuzz=[("FuzzC16", 60)],
-        rule=("rapid-generated byte strings built from pieces (escapable characters, backslashes, the ten "
-              "escape sequences in both hex cases, undefined backslash-hex sequences, hex digits, plain runs "
-              "that reach the 128/256-byte boundaries, arbitrary bytes) with a generated split into Transform "
-              "calls and generated destination capacities (0..4096); plus an exhaustive sweep of every special "
-              "piece at every offset around 0..5, 124..130 and 253..257. Oracle: independent XEP-0106 reference "
-              "(escape/unescape), round trip, agreement of String/Bytes/Span/Transform/x-text Reader and Writer. "
-              "Non-trivial: an escapable character or escape sequence at offset >= 2, or a destination smaller "
-              "than the output of an input that needs escaping; distinct by (input, chunking, capacities)."),
-        exhaustive_note="TestC16Sweep enumerates pieces x prefix lengths x tails x 4 schedules completely",
-        assumptions=["the driver loop follows the documented transform.Transformer contract (ErrShortDst: retry "
-                     "with fresh destination; ErrShortSrc: supply more source)",
-                     "XEP-0106 reference implementation in the harness is the oracle for Unescape; Escape is "
-                     "held to round trip + absence of the nine disallowed characters, not to one spelling"],
-    ),
-}
+Keys: id, pkg, level, rule, assumptions, shards (thorough), fuzz [[FuzzName, seconds]...],
+race (regex of tests to re-run under -race in thorough), race_scale, timeout_quick,
+timeout_thorough, run (regex), technique, level_text, level_note, exhaustive_note.
+"""
+import glob
+import json
+import os
+
+ROOT = os.path.dirname(os.path.abspath(__file__))
+PROPS = {}
+for p in sorted(glob.glob(os.path.join(ROOT, "harness", "*", "prop.json"))):
+    c = json.load(open(p))
+    PROPS[c["id"]] = c
